@@ -77,10 +77,17 @@ impl Scenario for C13 {
         "C13"
     }
     fn n_configs(&self) -> usize {
-        3
+        5
     }
     fn config_label(&self, c: usize) -> String {
-        ["fresh gateway", "gateway with approvals (one executed)", "gateway after a rotation"][c].into()
+        [
+            "fresh gateway",
+            "gateway with approvals (one executed)",
+            "gateway after a rotation",
+            "gateway (retention 1) after three rotations",
+            "gateway with a 1000 s rotation delay, just after an operator-bypass rotation",
+        ][c]
+        .into()
     }
     fn world<'a>(&self, ctx: &'a Ctx) -> &'a World {
         &ctx.w
@@ -100,7 +107,9 @@ impl Scenario for C13 {
         ));
         let keys = Keys::new(2);
         let set = SetSpec { signers: vec![(0, 1)], threshold: 1, nonce: 1 };
-        let gw = register_gateway(&w, None, &owner, &operator, &DOMAIN, 0, 1, &[set.raw(&keys)]);
+        let delay = if c == 4 { 1000 } else { 0 };
+        w.set_time(50_000);
+        let gw = register_gateway(&w, None, &owner, &operator, &DOMAIN, delay, 1, &[set.raw(&keys)]);
         if c == 1 {
             let m1 = msg_scval(&Msg { chain: "a".into(), id: "1".into(), src: "s".into(), dest: 0, payload_hash: [1; 32] }, &w.sc_addr(&p0));
             let m2 = msg_scval(&Msg { chain: "a".into(), id: "2".into(), src: "s".into(), dest: 0, payload_hash: [2; 32] }, &w.sc_addr(&p0));
@@ -118,6 +127,17 @@ impl Scenario for C13 {
             let proof = honest_proof(&keys, &set, &DOMAIN, &next.raw(&keys).rotation_data_hash());
             let r = w.call(&gw, "rotate_signers", &[to_val(env, &next.raw(&keys).scval()), to_val(env, &proof), w.v(false)], Auth::Nobody);
             assert!(r.ok);
+        }
+        if c == 3 || c == 4 {
+            let mut latest = set.clone();
+            for r in 0..(if c == 3 { 3 } else { 1 }) {
+                let next = SetSpec { signers: vec![((r + 1) % 2, 1)], threshold: 1, nonce: 20 + r as u8 };
+                let proof = honest_proof(&keys, &latest, &DOMAIN, &next.raw(&keys).rotation_data_hash());
+                let op = [operator.clone()];
+                let rr = w.call(&gw, "rotate_signers", &[to_val(env, &next.raw(&keys).scval()), to_val(env, &proof), w.v(c == 4)], if c == 4 { Auth::By(&op) } else { Auth::Nobody });
+                assert!(rr.ok, "{}", rr.err);
+                latest = next;
+            }
         }
         (Ctx { w, gw, p: vec![p0, p1], caller, account, owner }, 0)
     }
@@ -255,7 +275,7 @@ fn main() {
     main_for(|tier| {
         let mut o = Opts::new(tier, 1);
         o.level = "exploration";
-        o.rule = "exhaustive grid from 3 gateway states (fresh, with approvals, after a rotation): sender/authorisation in {principal signing; another principal signing; nobody; principal signing a different call; both signing; contract naming itself as caller; contract naming another address; account-type address authorised / unauthorised; unauthorised direct calls naming the gateway itself, another contract, the gateway's owner} x destination chain {empty, ASCII, 300 chars, multi-byte} x destination address {hex, empty, non-ASCII} x payload length {0,1,31,32,33,135,136,137,272,4096,40960} (Keccak rate boundaries; thorough: every length 0..=410 and 16 KiB / 16 KiB+1 / 64 KiB for the ASCII destination); one case is non-trivial and distinct when its (base state, sender mode, strings, payload) tuple differs".into();
+        o.rule = "exhaustive grid from 5 gateway states (fresh, with approvals, after a rotation, after three rotations with retention 1, inside the rotation-delay window after a bypass rotation): sender/authorisation in {principal signing; another principal signing; nobody; principal signing a different call; both signing; contract naming itself as caller; contract naming another address; account-type address authorised / unauthorised; unauthorised direct calls naming the gateway itself, another contract, the gateway's owner} x destination chain {empty, ASCII, 300 chars, multi-byte} x destination address {hex, empty, non-ASCII} x payload length {0,1,31,32,33,135,136,137,272,4096,40960} (Keccak rate boundaries; thorough: every length 0..=410 and 16 KiB / 16 KiB+1 / 64 KiB for the ASCII destination); one case is non-trivial and distinct when its (base state, sender mode, strings, payload) tuple differs".into();
         (C13 { thorough: tier == "thorough" }, o)
     });
 }
